@@ -34,7 +34,9 @@ CLAIMS.update({
          "preempt, ??, defeat functions and histories of try blocks in whole programs are validated differentially (history "
          "templates, defeat inside defeat functions, ?? into globals).", "machine-checked proof (Lean 4) of the construct laws + differential validation", "6 C02"),
  'C03': ("proof", "Proof, partial. Proved for the regenerated library and tables, all w>=2: the win/error/fault entry points never halt and "
-         "emit exactly their flags; halt_inversion is logical negation on all ten conditional halts; goto never commits its halt; a VM "
+         "emit exactly their flags; halt_inversion is logical negation on all ten conditional halts; goto never commits its halt; the five print "
+         "routines of the library (write_int, write_string, write_const_byte_array, write_state_byte_array, write_bool), called according to "
+         "the calling convention, halt iff the caller's continuation does - every length, zero included (library_writes_never_halt); a VM "
          "verdict `halted` would exhibit Halts init (driver soundness). Whole-program non-halting is PROVED for the sequential integer core "
          "(core_never_halts, core_overflow_never_halts; model tied by the exact core correspondence) and validated beyond it: no "
          "generated program in any build ever yields a committed halt.", "machine-checked proof (Lean 4) + exhaustive-outcome validation on generated programs", "6 C03"),
@@ -63,7 +65,9 @@ CLAIMS.update({
          "is additionally executed through real hidc on the Lean VM.", "machine-checked proof (Lean 4) over regenerated tables and templates + boundary-grid execution", "6 C09"),
  'C13': ("proof", "Proof. escape_roundtrip: for every byte string and both quote characters the assembler reads back exactly the bytes that "
          "_escape_bytes (transcribed from the source by py2lean on every run and re-executed against Python on its whole domain) escaped; "
-         "the escaped text is printable ASCII. Data sections of whole programs (strings, chars, const int/byte/bool/string arrays, all "
+         "the escaped text is printable ASCII. pack_bools_spec: for every list of booleans the transcribed pack_bools (same translator, "
+         "executed against Python on all 0/1 lists up to length 11 every run) yields ceil(n/8) bytes below 256 in which bit j%8 of byte j/8 is "
+         "element j and every other bit is clear (invariant over the loop). Data sections of whole programs (strings, chars, const int/byte/bool/string arrays, all "
          "lengths) are validated through real hidc, the Lean assembler and VM.", "machine-checked proof (Lean 4) over a transcribed function + data-section execution", "6 C13"),
  'C14': ("proof", "Proof of the conditional theorem, known finding for the unconditional one. fold_agrees_partial: for every constant "
          "expression whose exact evaluation stays inside the signed word range, folding (model evalZ, tied to the real typechecker by a "
